@@ -2,7 +2,7 @@
 # Updates seeded/*/meta.json (detected_by) from the matrix files and prints the DESIGN §10 table.
 import json, os, re, glob
 rows={}
-for f in ['/verif/seeded/MATRIX.txt','/verif/seeded/MATRIX2.txt','/verif/seeded/MATRIX_ALL.txt']:
+for f in ['/verif/seeded/MATRIX_ALL.txt']:
     if not os.path.exists(f): continue
     for l in open(f):
         m=re.match(r'(\S+) (\S+) (\S+)(?: (\d+)s)?(?: \| *(.*))?$', l.strip())
